@@ -316,6 +316,7 @@ pub fn io_kind(name: &str) -> std::io::ErrorKind {
         "StorageFull" => std::io::ErrorKind::StorageFull,
         "TimedOut" => std::io::ErrorKind::TimedOut,
         "InvalidData" => std::io::ErrorKind::InvalidData,
+        "NotFound" => std::io::ErrorKind::NotFound,
         _ => std::io::ErrorKind::Other,
     }
 }
